@@ -89,6 +89,11 @@ def run(ctx, R, tier):
         R.check(const, 'B.C10.spin', 'sleep-constant', 'the decoder thread sleeps for %s: a duration computed from runtime values (e.g. the '
                 'decoder\'s sample rate) is not a bound on how long a stopped or discarded sound keeps its thread' % d[:120],
                 detail={'duration': d[:120]}, where=c.where(x))
+    # ---- a decoding step is only ever taken by the decoder thread's loop, where an error is reported and ends the thread: a
+    # step taken elsewhere (e.g. pre-loading on the caller's thread) has no such handling
+    callers = [b2.path for b2 in F.bodies if b2.krate == 'kira' for _, t2 in b2.calls() if (callee_path(t2) or '') == DS + '::run']
+    R.check(callers and all(cp_ == c.path for cp_ in callers), 'B.C10.err-prop', 'run-callers', 'DecodeScheduler::run is called from %s: only the decoder thread\'s loop handles its errors'
+            % [x for x in callers if x != c.path], detail={'callers': callers})
     # ---- spin: classify every cycle of the thread loop
     cycles = [p for p in explore(c) if p.end.startswith('backedge')]
     ncyc = 0
@@ -188,6 +193,10 @@ def run(ctx, R, tier):
         # an error of Decoder::seek is an error of the stream: it is propagated like a decode error (the C18 rule)
         from .c18 import seek_landing
         seek_landing(F, R)
+        # the slice a streaming sound is given ends inside the audio as the static sound's does (past it, the decoder is asked
+        # for frames that do not exist and never returns to look at its state)
+        from .c09 import sib_data
+        sib_data(F, R, rule='B.C10.sib-data')
         # "playback continues from where it stopped to within a frame": the loop that steps through source frames
         # (`while fractional_position >= 1.0 { fractional_position -= 1.0; pop }`) is left only through its own guard, so
         # the fraction is below one after it whatever the ring buffer held; and every iteration takes one off
